@@ -1,10 +1,33 @@
 package checks
 
 import (
+	"encoding/json"
+	"fmt"
+	"io"
+	"os"
+	"os/exec"
+	"strings"
+	"syscall"
 	"testing"
 
 	"github.com/tonistiigi/fsutil"
 )
+
+// TestMain dispatches helper roles: the test binary re-executes itself as a
+// sub-process that chroots into a throw-away jail before it runs code that is
+// deliberately fed hostile input (C03, C14), or that drops privileges (C01's
+// unprivileged receiver).
+func TestMain(m *testing.M) {
+	switch os.Getenv("VERIF_HELPER") {
+	case "":
+		os.Exit(m.Run())
+	case "jail":
+		os.Exit(jailMain())
+	default:
+		fmt.Fprintln(os.Stderr, "unknown helper role")
+		os.Exit(3)
+	}
+}
 
 // TestSmoke is run by `./check --setup`: the module graph resolves offline and
 // the library links.
@@ -13,3 +36,132 @@ func TestSmoke(t *testing.T) {
 		t.Fatal("unexpected")
 	}
 }
+
+// jailRequest is what the parent sends to the chrooted helper.
+type jailRequest struct {
+	Root string          `json:"root"` // directory to chroot into
+	Op   string          `json:"op"`   // receive | copy
+	Uid  int             `json:"uid"`  // drop to this uid/gid after chroot (0 = stay)
+	Arg  json.RawMessage `json:"arg"`
+}
+
+type jailResponse struct {
+	Err    string          `json:"err,omitempty"` // helper-level failure (infrastructure)
+	Result json.RawMessage `json:"result,omitempty"`
+}
+
+func jailMain() int {
+	var req jailRequest
+	dt, err := io.ReadAll(os.Stdin)
+	if err == nil {
+		err = json.Unmarshal(dt, &req)
+	}
+	reply := func(r jailResponse) int {
+		out, _ := json.Marshal(r)
+		os.Stdout.Write(out)
+		return 0
+	}
+	if err != nil {
+		return reply(jailResponse{Err: "bad request: " + err.Error()})
+	}
+	if err := syscall.Chroot(req.Root); err != nil {
+		return reply(jailResponse{Err: "chroot: " + err.Error()})
+	}
+	if err := os.Chdir("/"); err != nil {
+		return reply(jailResponse{Err: "chdir: " + err.Error()})
+	}
+	if req.Uid != 0 {
+		if err := syscall.Setgroups(nil); err != nil {
+			return reply(jailResponse{Err: "setgroups: " + err.Error()})
+		}
+		if err := syscall.Setgid(req.Uid); err != nil {
+			return reply(jailResponse{Err: "setgid: " + err.Error()})
+		}
+		if err := syscall.Setuid(req.Uid); err != nil {
+			return reply(jailResponse{Err: "setuid: " + err.Error()})
+		}
+	}
+	var res any
+	switch req.Op {
+	case "receive":
+		res, err = jailReceive(req.Arg)
+	case "copy":
+		res, err = jailCopy(req.Arg)
+	default:
+		err = fmt.Errorf("unknown op %q", req.Op)
+	}
+	if err != nil {
+		return reply(jailResponse{Err: err.Error()})
+	}
+	out, _ := json.Marshal(res)
+	return reply(jailResponse{Result: out})
+}
+
+// runJailed re-executes the test binary as a chrooted helper.
+func runJailed(root, op string, uid int, arg any, result any) error {
+	argb, err := json.Marshal(arg)
+	if err != nil {
+		return err
+	}
+	reqb, _ := json.Marshal(jailRequest{Root: root, Op: op, Uid: uid, Arg: argb})
+	exe, err := os.Executable()
+	if err != nil {
+		return err
+	}
+	cmd := exec.Command(exe)
+	cmd.Env = append(os.Environ(), "VERIF_HELPER=jail")
+	cmd.Stdin = bytesReader(reqb)
+	var stderr limitedBuf
+	cmd.Stderr = &stderr
+	out, err := cmd.Output()
+	if err != nil {
+		if s := stderr.String(); strings.Contains(s, "panic:") || strings.Contains(s, "fatal error:") {
+			return &helperCrash{Stderr: s}
+		}
+		return fmt.Errorf("jail helper: %v: %s", err, stderr.String())
+	}
+	var resp jailResponse
+	if err := json.Unmarshal(out, &resp); err != nil {
+		return fmt.Errorf("jail helper: bad reply %q (stderr %s)", out, stderr.String())
+	}
+	if resp.Err != "" {
+		return fmt.Errorf("jail helper: %s", resp.Err)
+	}
+	return json.Unmarshal(resp.Result, result)
+}
+
+// helperCrash: the code under test brought the whole helper process down.
+type helperCrash struct{ Stderr string }
+
+func (h *helperCrash) Error() string {
+	s := h.Stderr
+	if len(s) > 1500 {
+		s = s[:1500] + "..."
+	}
+	return "process crashed: " + s
+}
+
+type limitedBuf struct{ b []byte }
+
+func (l *limitedBuf) Write(p []byte) (int, error) {
+	if len(l.b) < 16<<10 {
+		l.b = append(l.b, p...)
+	}
+	return len(p), nil
+}
+func (l *limitedBuf) String() string { return string(l.b) }
+
+type sliceReader struct {
+	b []byte
+}
+
+func (s *sliceReader) Read(p []byte) (int, error) {
+	if len(s.b) == 0 {
+		return 0, io.EOF
+	}
+	n := copy(p, s.b)
+	s.b = s.b[n:]
+	return n, nil
+}
+
+func bytesReader(b []byte) io.Reader { return &sliceReader{b} }
